@@ -658,7 +658,7 @@ func Index(s, substr string) int {
 
 	fails := 0
 	// TODO: see if we can stop sooner.
-	t := len(s) - len(substr)/3 + 1
+	t := len(s) - len(substr)/3 + 2
 	if t > len(s) {
 		t = len(s)
 	}
